@@ -40,6 +40,17 @@ for d in sorted(glob.glob(os.path.join(V, "seeded", "C*-*"))):
         if ln and not ln.startswith("#"):
             first = ln
             break
-    rows.append((sid, meta.get("breaks", first)[:160], ", ".join(outcome["caught_by"]) if outcome and outcome.get("caught_by") else ("MISSED" if outcome else "not run yet")))
+    fr = meta.get("first_run")
+    if fr is None:
+        frs = "run by the family's implementer (see notes)"
+    else:
+        frs = "caught" if any(x.endswith("rc=1") for x in fr) else ("exit 2" if any(x.endswith("rc=2") for x in fr) else "missed")
+        if meta.get("note"):
+            frs += " (" + meta["note"] + ")"
+    fin = ", ".join(sorted(set(outcome["caught_by"]))) if outcome and outcome.get("caught_by") else ("MISSED" if outcome else "not run yet")
+    desc = meta.get("breaks", first).replace("|", "/")[:150]
+    rows.append((sid, desc, frs, "caught by " + fin if fin not in ("MISSED", "not run yet") else fin))
+print("| seed | change (see seeded/<id>/README.md) | first run | final sweep |")
+print("|---|---|---|---|")
 for r in rows:
-    print("| %s | %s | %s |" % r)
+    print("| %s | %s | %s | %s |" % r)
